@@ -40,15 +40,22 @@ impl<'n> TryFromNode<'n> for Field {
         target_namespace.clone_from(&doc.current_target_namespace);
 
         let is_attribute = node.tag_name().name() == "attribute";
-        let parent_is_optional = node.parent().and_then(|n| n.attribute("minOccurs")) == Some("0");
+        // the particles (sequence, choice, all) that enclose this member inside its type; each of
+        // them can make the member optional or repeatable
+        let enclosing_particles = || {
+            node.ancestors()
+                .skip(1)
+                .take_while(|n| matches!(n.tag_name().name(), "sequence" | "choice" | "all"))
+        };
+        let parent_is_optional = enclosing_particles().any(|n| n.attribute("minOccurs") == Some("0"));
         let is_optional = if is_attribute {
             node.attribute("use") != Some("required")
         } else {
             node.attribute("minOccurs") == Some("0") || parent_is_optional
         };
-        let parent_is_vec = node.parent().and_then(|n| n.attribute("maxOccurs")) == Some("unbounded");
-        let is_vec = Node::attribute(&node, "maxOccurs") == Some("unbounded") || parent_is_vec;
-        let is_choice = node.parent().is_some_and(|n| n.tag_name().name() == "choice");
+        let parent_is_vec = enclosing_particles().any(|n| may_repeat(n.attribute("maxOccurs")));
+        let is_vec = may_repeat(node.attribute("maxOccurs")) || parent_is_vec;
+        let is_choice = enclosing_particles().any(|n| n.tag_name().name() == "choice");
 
         // check if this is an any type
         if node.tag_name().name() == "any" {
@@ -93,7 +100,6 @@ impl<'n> TryFromNode<'n> for Field {
                 .as_ref()
                 .ok_or_else(|| WriterError::NodeNotFound(ref_name.to_string()))?;
 
-            let is_choice = node.parent().is_some_and(|n| n.tag_name().name() == "choice");
             let module = namespace.as_ref().map(|n| n.rust_mod_name.clone());
 
             let xml_name = ref_node.xml_name().ok_or(WriterError::InvalidReference)?;
@@ -147,7 +153,7 @@ where
     fn write_xml(&self, writer: &mut W) -> WriterResult<()> {
         let possibly_optional_field = if self.is_vec {
             format!("Vec<{}>", self.rust_type)
-        } else if self.is_optional {
+        } else if self.is_optional || self.is_choice {
             format!("Option<{}>", self.rust_type)
         } else {
             self.rust_type.to_string()
@@ -237,6 +243,15 @@ impl Display for RustFieldType {
                 }
             }
         }
+    }
+}
+
+/// `maxOccurs` allows more than one occurrence: `unbounded` or a number greater than one
+fn may_repeat(max_occurs: Option<&str>) -> bool {
+    match max_occurs {
+        Some("unbounded") => true,
+        Some(n) => n.trim().parse::<u64>().is_ok_and(|n| n > 1),
+        None => false,
     }
 }
 
